@@ -1029,12 +1029,14 @@ dt_strfdt(char *restrict buf, size_t bsz, const char *fmt, struct dt_dt_s that)
 			/* must be literal then */
 			*bp++ = *fp_sav;
 		} else if (LIKELY(!spec.rom)) {
-			bp += __strfdt_card(
+			size_t nd = __strfdt_card(
 				bp, eo - bp, spec, &d,
 				LIKELY(!spec.bizda || orig.d.typ != DT_BIZDA)
 				? that : orig);
+
+			bp += nd;
 			if (spec.ord) {
-				bp += __ordtostr(bp, eo - bp);
+				bp += __ordtostr(bp, eo - bp, nd);
 			} else if (spec.bizda) {
 				/* don't print the b after an ordinal */
 				if (spec.ab == BIZDA_AFTER) {
